@@ -106,9 +106,9 @@ func runSign(d *big.Int, aux, msg []byte, route int, mode string) string {
 }
 
 // runFault: reader failing after j bytes => error, no signature.
-func runFault(d *big.Int, msg []byte, j int, with bool, mode string) string {
+func runFault(d *big.Int, msg []byte, j int, with bool, mode, errKind string) string {
 	sk, _ := mkSK(d, 0)
-	sc := mc.Script{Src: "counter", Mode: mode, FailAfter: j, FailWith: with}
+	sc := mc.Script{Src: "counter", Mode: mode, FailAfter: j, FailWith: with, FailErr: errKind}
 	sig, err := sk.Sign(sc.New(), msg, nil)
 	if j < 32 {
 		if err == nil || sig != nil {
@@ -211,7 +211,9 @@ func runDerivePub(q ref.Pt, z *big.Int) string {
 
 func register() {
 	mc.Register("sign", func(d mc.D) string { return runSign(d.Big("d"), d.B("aux"), d.B("msg"), d.I("route"), d.S("mode")) })
-	mc.Register("fault", func(d mc.D) string { return runFault(d.Big("d"), d.B("msg"), d.I("j"), d.Bool("with"), d.S("mode")) })
+	mc.Register("fault", func(d mc.D) string {
+		return runFault(d.Big("d"), d.B("msg"), d.I("j"), d.Bool("with"), d.S("mode"), d.S("err"))
+	})
 	mc.Register("derive", func(d mc.D) string { return runDerive(d.Big("d")) })
 	mc.Register("derivepub", func(d mc.D) string { return runDerivePub(lib.HexPt(d.S("q")), d.Big("z")) })
 }
@@ -270,6 +272,20 @@ func main() {
 			}
 		}
 	}
+	// EVERY message length 0..maxLen for two keys (odd / even public y): internal block / buffer boundaries
+	// of the tagged hashes are not known to the check, so no length is skipped
+	maxLen := 1100
+	if th {
+		maxLen = 2300
+	}
+	R.Bound("every_message_length", fmt.Sprintf("0..%d", maxLen))
+	for L := 0; L <= maxLen; L++ {
+		m := make([]byte, L)
+		for i := range m {
+			m[i] = byte(i*29 + L)
+		}
+		jobs = append(jobs, job{ds[2+L%2], auxs[3], m, L % 2, "full"})
+	}
 	// all delivery modes on one triple per key
 	for _, d := range ds[:6] {
 		for _, m := range modes {
@@ -306,8 +322,10 @@ func main() {
 	// reader faults at every byte
 	for j := 0; j <= 32; j++ {
 		for _, with := range []bool{false, true} {
-			for _, mode := range []string{"full", "1"} {
-				R.Run("sign/reader fault", "fault", mc.D{"d": mc.HexBig(ds[2]), "msg": mc.Hex(msgs[3]), "j": j, "with": with, "mode": mode})
+			for _, mode := range []string{"full", "1", "chunks:13"} {
+				for _, ek := range []string{"", "eof", "unexpected-eof"} {
+					R.Run("sign/reader fault", "fault", mc.D{"d": mc.HexBig(ds[2]), "msg": mc.Hex(msgs[3]), "j": j, "with": with, "mode": mode, "err": ek})
+				}
 			}
 		}
 	}
